@@ -1,13 +1,17 @@
 package main
 
 import (
+	"bytes"
 	"context"
 	"fmt"
 	"os"
 	"strings"
 	"time"
 
+	"github.com/ipfs/go-datastore"
+
 	datatransfer "github.com/filecoin-project/go-data-transfer/v2"
+	"github.com/filecoin-project/go-data-transfer/v2/channels"
 )
 
 // ---------- step constructors ----------
@@ -730,7 +734,85 @@ func runNodeRestart(dir string, seed uint64, tier string) {
 			}
 		}
 	}
-	s.finish(dir, "enumerated: 4 roles x every non-terminal status reachable by a real history x {no extra, a second voucher, data progress} x {same process, process restart with / without re-registering the validator} x every restart path (API restart, restart-existing from counterparty and stranger, restart responses accepted / rejected, restart requests valid / rejected / validator error / forced pause / limit / carrying the latest instead of the original voucher / each single-field mutation / from a stranger); quick tier thins the combinations", tier == "thorough")
+	// ---- a channel persisted while cleaning up (the process died between entering Cancelling / Failing /
+	// Completing and the end of cleanup): restarting it only finishes the cleanup (C10, C09, C06).  Direct
+	// monitors only: the stored record is rewritten by the harness, which the model has no input for.
+	for _, role := range allRoles {
+		for _, cst := range []datatransfer.Status{datatransfer.Cancelling, datatransfer.Failing, datatransfer.Completing} {
+			base := recipe(role, "Ongoing", 1)
+			if base == nil {
+				continue
+			}
+			k := roleChid(role, 1)
+			label := fmt.Sprintf("restart-in-cleanup role=%s persisted=%s", role, statusName(cst))
+			func() {
+				r := newNodeRig(s.res, 1)
+				defer func() { _ = r.mgr.Stop(context.Background()) }()
+				opens := 0
+				for _, st := range append([]nStep{sRegister("T1")}, base...) {
+					if st.Kind == "open" {
+						opens++
+					}
+					r.exec(st, opens)
+				}
+				chid := r.chidReal(k)
+				key := datastore.NewKey("/3/" + chid.String())
+				raw, err := r.ds.inner.Get(context.Background(), key)
+				if err != nil {
+					return
+				}
+				var rec channels.VerifChannelState
+				if rec.UnmarshalCBOR(bytes.NewReader(raw)) != nil {
+					return
+				}
+				rec.Status = cst
+				var buf bytes.Buffer
+				if rec.MarshalCBOR(&buf) != nil {
+					return
+				}
+				_ = r.mgr.Stop(context.Background())
+				_ = r.ds.inner.Put(context.Background(), key, buf.Bytes())
+				r.registered = map[string]bool{}
+				r.boot()
+				r.register("T1")
+				o := r.exec(sK("restart", k), opens)
+				fail := func(prop, sig, what string, obs interface{}) {
+					s.res.fail(monitorFailure{Property: prop, CaseID: 0, Signature: sig, What: what, Input: label, Observed: obs})
+				}
+				st, err := r.mgr.ChannelState(context.Background(), chid)
+				want := map[datatransfer.Status]datatransfer.Status{datatransfer.Cancelling: datatransfer.Cancelled, datatransfer.Failing: datatransfer.Failed, datatransfer.Completing: datatransfer.Completed}[cst]
+				if err != nil || st.Status() != want {
+					got := "?"
+					if err == nil {
+						got = statusName(st.Status())
+					}
+					for _, prop := range []string{"C10", "C09", "C06"} {
+						fail(prop, "restart-in-cleanup-did-not-finish-cleanup", "restarting a channel that was persisted while cleaning up did not bring it to the matching terminal status", got)
+					}
+					if cst == datatransfer.Completing {
+						fail("C01", "completing-channel-does-not-settle-after-crash", "a channel persisted in Completing (its final Complete sent / received) does not settle in Completed when the process comes back and restarts it", got)
+					}
+				}
+				cleanups, others := 0, []string{}
+				for _, t := range o.Trs {
+					if t.K == k && t.Kind == "cleanup" {
+						cleanups++
+					} else {
+						others = append(others, t.Kind)
+					}
+				}
+				if cleanups != 1 {
+					fail("C09", "restart-in-cleanup-cleanup-count", "restarting a channel persisted while cleaning up did not run the cleanup exactly once", cleanups)
+				}
+				if len(others) != 0 || len(o.Sent) != 0 || len(o.Vals) != 0 {
+					fail("C10", "restart-in-cleanup-did-more-than-cleanup", "restarting a channel that is cleaning up did more than finish the cleanup: it issued transport commands, sent messages or re-validated",
+						fmt.Sprintf("transport=%v messages=%d validations=%d", others, len(o.Sent), len(o.Vals)))
+				}
+				s.res.hist("restart-in-cleanup:" + statusName(cst))
+			}()
+		}
+	}
+	s.finish(dir, "enumerated: 4 roles x every non-terminal status reachable by a real history x {no extra, a second voucher, data progress} x {same process, process restart with / without re-registering the validator} x every restart path (API restart, restart-existing from counterparty and stranger, restart responses accepted / rejected, restart requests valid / rejected / validator error / forced pause / limit / carrying the latest instead of the original voucher / each single-field mutation / from a stranger); quick tier thins the combinations; plus 4 roles x {Cancelling, Failing, Completing} persisted by a process that died during cleanup, restarted through the manager (direct monitors only)", tier == "thorough")
 }
 
 // ---------- nodepeers (C05): who may act on which channel ----------
@@ -857,6 +939,17 @@ func runNodeAPI(dir string, seed uint64, tier string) {
 					{sCompleted(k, false)}, {sMResp(other, respOf(mtNew, k.Tid, true, false))}, {sK("tinitiated", k)}} {
 					q := append([]nStep{sK("pause", k)}, mv...)
 					seqs = append(seqs, append(q, sK("resume", k), counterResume()))
+				}
+			}
+			if roleInitiator(role) {
+				// responses of the counterparty that carry a voucher result, accepted or not, over the network and
+				// as a transport extension: the initiator records the result (once), then acts on the verdict
+				for _, mt := range []uint64{mtNew, mtRestart, mtVoucherResult, mtComplete} {
+					for _, acc := range []bool{true, false} {
+						m := respOf(mt, k.Tid, acc, false)
+						m.VType, m.VNode = "R1", 4
+						seqs = append(seqs, []nStep{sMResp(other, m)}, []nStep{sTResp(k, m)})
+					}
 				}
 			}
 			if !roleInitiator(role) && (status == "Ongoing" || status == "Queued") {
